@@ -5,25 +5,32 @@
 From Coq Require Import List String NArith Bool Arith Lia.
 From Coq Require Import Strings.Byte.
 From YVGen Require Import ErrKinds UnwindArms.
-From YV Require Import Scanner Parser ParseRun Bytecode Skeleton Verifier VerifierProofs Lines LinesSpec LinesProofs.
+From YV Require Import Scanner Parser ParseRun Bytecode Skeleton Verifier VerifierProofs Lines LinesSpec LinesProofs ErrLang.
 Import ListNotations.
 
 (* the mechanism model instantiated with the shape of today's unwind_stack / try_handle_error / call_native *)
 Definition fl : flags :=
-  mkFlags unwind_clears_error_ip_on_catch unwind_rebases_error_ip_on_frame_drop failure_records_error_ip.
+  mkFlags unwind_clears_error_ip_on_catch unwind_rebases_error_ip_on_frame_drop
+          failure_records_error_ip_vm failure_records_error_ip_native.
 
 (* --- side conditions on the current sources --- *)
 Theorem C17_side_shape :
   unwind_rebases_error_ip_on_frame_drop = true /\
-  throw_records_error_ip = true /\ failure_sites_disagree = false /\
+  throw_records_error_ip = true /\
   trace_falls_back_to_live_ip = true /\ trace_innermost_first = true /\
   trace_index_offset_minus_one = true /\ store_prefers_error_ip = true /\
   unhandled_names_instance_class = true /\ error_at_uses_token_line = true /\
   emit_byte_uses_previous_line = true.
 Proof. repeat split; reflexivity. Qed.
 (* a catch clause clears the error position, or every way of raising an exception overwrites it *)
-Theorem C17_side_clear : unwind_clears_error_ip_on_catch = true \/ failure_records_error_ip = true.
-Proof. exact (proj1 (orb_true_iff unwind_clears_error_ip_on_catch failure_records_error_ip) (eq_refl true)). Qed.
+Theorem C17_side_clear : clear_on_catch fl = true \/ records_all fl = true.
+Proof. exact (proj1 (orb_true_iff (clear_on_catch fl) (records_all fl)) (eq_refl true)). Qed.
+(* both places that turn a failure of the VM / of a native into an exception record its position: the known
+   class builtin_failure_no_error_ip is empty *)
+Theorem C17_side_records : fail_records_vm fl = true /\ fail_records_native fl = true.
+Proof. split; reflexivity. Qed.
+Theorem C17_known_class_empty : forall s ops, known_classb fl s ops = false.
+Proof. exact (fun s ops => known_class_empty fl ops s (proj1 C17_side_records) (proj2 C17_side_records)). Qed.
 Theorem C17_side_formats : strings_eqb gen_format_templates format_templates = true.
 Proof. vm_compute; reflexivity. Qed.
 Theorem C17_side_roundtrip :
@@ -35,6 +42,12 @@ Theorem C17_side_kinds_complete :
   forallb (fun k => match assoc kind_to_class k with Some _ => true | None => false end) error_kinds = true /\
   List.length error_kinds = 8%nat.
 Proof. split; vm_compute; reflexivity. Qed.
+
+(* the mini-language the differential check runs on (ErrLang.v): Spec and Mechanism, instantiated with the
+   regenerated flags / tables / templates, agree on the directed examples (this also puts ErrLang.v into the
+   closure of this file, so the check rebuilds it whenever a generated file changes) *)
+Theorem C17_errlang_directed_examples : forallb agreeb directed_examples = true.
+Proof. vm_compute; reflexivity. Qed.
 
 (* --- ErrorKind -> class -> ErrorKind is the identity on every kind a running program can produce --- *)
 Theorem C17_kind_class_roundtrip : forall k,
@@ -57,37 +70,51 @@ Proof. exact (trace_one_entry_per_frame fl). Qed.
 (* --- M refines S: the whole trace is the Spec's, for every well-formed history --- *)
 Theorem C17_mech_refines_spec : forall fd0 ops,
   wf_ops (sinit fd0) ops = true ->
-  (failure_records_error_ip = true \/ known_classb (sinit fd0) ops = false) ->
   s_raised (srun (sinit fd0) ops) = true ->
   muncaught (mrun fl (init_vm fd0) ops) = spec_uncaught (srun (sinit fd0) ops).
-Proof. exact (mech_refines_spec fl C17_side_clear (proj1 C17_side_shape)). Qed.
+Proof.
+  exact (fun fd0 ops Hwf => mech_refines_spec fl C17_side_clear (proj1 C17_side_shape) fd0 ops Hwf
+                              (C17_known_class_empty (sinit fd0) ops)).
+Qed.
 
 (* --- the position used for the top frame is the failing instruction's --- *)
 Theorem C17_error_ip_scoped : forall fd0 ops,
   wf_ops (sinit fd0) ops = true ->
-  (failure_records_error_ip = true \/ known_classb (sinit fd0) ops = false) ->
   s_raised (srun (sinit fd0) ops) = true ->
   top_position (mrun fl (init_vm fd0) ops) = spec_top_position (srun (sinit fd0) ops).
-Proof. exact (error_ip_scoped fl C17_side_clear (proj1 C17_side_shape)). Qed.
+Proof.
+  exact (fun fd0 ops Hwf => error_ip_scoped fl C17_side_clear (proj1 C17_side_shape) fd0 ops Hwf
+                              (C17_known_class_empty (sinit fd0) ops)).
+Qed.
+(* the general form, for a tree in which one of the two sites does not record: outside the known class *)
+Theorem C17_error_ip_scoped_general : forall fl0 fd0 ops,
+  (clear_on_catch fl0 = true \/ records_all fl0 = true) -> rebase_on_drop fl0 = true ->
+  wf_ops (sinit fd0) ops = true -> known_classb fl0 (sinit fd0) ops = false ->
+  s_raised (srun (sinit fd0) ops) = true ->
+  top_position (mrun fl0 (init_vm fd0) ops) = spec_top_position (srun (sinit fd0) ops).
+Proof. exact (fun fl0 fd0 ops H1 H2 => error_ip_scoped fl0 H1 H2 fd0 ops). Qed.
 (* this was false before 60972d3 / dbae469 / 3f29ec2: witnesses on the model variants *)
 Theorem C17_error_ip_scoped_refuted_old :
-  exists ops, wf_ops (sinit fd_main) ops = true /\ known_classb (sinit fd_main) ops = false /\
+  exists ops, wf_ops (sinit fd_main) ops = true /\
+    known_classb (mkFlags false true false false) (sinit fd_main) ops = false /\
     s_raised (srun (sinit fd_main) ops) = true /\
-    top_position (mrun (mkFlags false true false) (init_vm fd_main) ops)
+    top_position (mrun (mkFlags false true false false) (init_vm fd_main) ops)
       <> spec_top_position (srun (sinit fd_main) ops).
 Proof. exact error_ip_scoped_refuted_old. Qed.
 Theorem C17_error_ip_rebase_refuted_old :
-  exists ops, wf_ops (sinit fd_main) ops = true /\ known_classb (sinit fd_main) ops = false /\
+  exists ops, wf_ops (sinit fd_main) ops = true /\
+    known_classb (mkFlags true false true true) (sinit fd_main) ops = false /\
     s_raised (srun (sinit fd_main) ops) = true /\
-    muncaught (mrun (mkFlags true false false) (init_vm fd_main) ops) = None /\
+    muncaught (mrun (mkFlags true false true true) (init_vm fd_main) ops) = None /\
     spec_uncaught (srun (sinit fd_main) ops) = Some [("main", 3, "")]%N%string.
 Proof. exact error_ip_rebase_refuted_old. Qed.
 Theorem C17_error_ip_scoped_refuted_builtin :
-  exists ops, wf_ops (sinit fd_main) ops = true /\ known_classb (sinit fd_main) ops = true /\
+  exists ops, wf_ops (sinit fd_main) ops = true /\
+    known_classb (mkFlags true true true false) (sinit fd_main) ops = true /\
     s_raised (srun (sinit fd_main) ops) = true /\
-    top_position (mrun (mkFlags true true false) (init_vm fd_main) ops) = 6%nat /\
+    top_position (mrun (mkFlags true true true false) (init_vm fd_main) ops) = 6%nat /\
     spec_top_position (srun (sinit fd_main) ops) = 2%nat /\
-    top_position (mrun (mkFlags true true true) (init_vm fd_main) ops) = 2%nat.
+    top_position (mrun (mkFlags true true true true) (init_vm fd_main) ops) = 2%nat.
 Proof. exact error_ip_scoped_refuted_builtin. Qed.
 
 (* --- `chunk.lines[offset - 1]` is in range for verified code with a parallel line table --- *)
@@ -111,6 +138,10 @@ Proof. exact compile_error_has_line_partial. Qed.
 
 Print Assumptions C17_side_shape.
 Print Assumptions C17_side_clear.
+Print Assumptions C17_side_records.
+Print Assumptions C17_known_class_empty.
+Print Assumptions C17_error_ip_scoped_general.
+Print Assumptions C17_errlang_directed_examples.
 Print Assumptions C17_side_formats.
 Print Assumptions C17_side_roundtrip.
 Print Assumptions C17_side_kinds_complete.
